@@ -324,7 +324,7 @@ var assumptions = []string{
 	"the reference interpreter reads the plain data fields of the real operation objects (type, author, texts, files, targets, label lists, metadata maps) and operation ids; it never calls Apply",
 	"entity.CombineIds is trusted to map (bug id, operation id) to the ids shown on comments and timeline entries (C13)",
 	"bounded: alphabets and lengths as listed per run; 'long random sequences' of the quantifier are replaced by completeness up to the bound, nothing is sampled",
-	"where the statement is silent the oracle accepts every outcome: order of actors/participants, whether the author of an operation without effect (edit of an unknown target, set-metadata, no-op) is listed as actor, authors inside a comment's edit history",
+	"where the statement is silent the oracle accepts every outcome: order of actors/participants, whether the author of a set-metadata or no-op operation is listed as actor (the author of an edit of an unknown target must NOT become an actor through it: change nothing), authors inside a comment's edit history",
 }
 
 // Main is the entry point of `harness C10`.
